@@ -2,18 +2,27 @@
 
   C09.R1  every node name that reaches the networkx graph during construction (any call on the graph object, membership, subscripts)
           has passed a truncation that was *verified* by C09.R3 - found by data flow from the constructor's module list and from the
-          accessors of `Import`, never by the name of a helper
+          accessors of `Import`, never by the name of a helper.  Loop targets are bound strongly inside the loop body (`LoopFlow`); a
+          may-flow finding is reported only if the values observed at that sink while the constructor is evaluated (C09.R6) do not
+          contradict it (all of them truncated names, for every limit)
   C09.R2  every edge insertion is guarded by `start != end` on exactly the (flattened) values that are inserted; any other test of the
           construction code that depends on the limit and decides about a pair of names is tabulated and must be 'both flatten to the
           same node' (or its negation) - not a string-prefix relation; whether an edge is inserted never depends on reachability
           (has_path & co.) between its ends
   C09.R3  whatever turns a raw name into a graph node (method, module-level function, functools.partial, lambda, conditional
           expression) is tabulated over a finite table of names and limits: identity without a limit, the first limit+1 dotted
-          components otherwise; neither it nor the construction code keeps node names in state shared between graphs
+          components otherwise; neither it nor the construction code keeps node names in state shared between graphs.  The names come
+          from the pool, from an idealised Import and (extra rounds) from records of the concrete Import classes, constructed in the
+          evaluator (a RelativeImport's parents list is not the prefix chain of its importee); a list of names may also be the quotient
+          of a chain (`(parents + [name])[: limit + 1]`); raw locals with one definition are evaluated through it
   C09.R4  tabulated from the public entry points down to the constructor call: the limit the graph receives is the user's limit plus the
-          number of levels between root_path and module_path; None stays None; no offset when the paths coincide
+          number of levels between root_path and module_path; None stays None; no offset when the paths coincide; a second call for
+          the same paths with another limit (evaluated on the module / class state the first call left) constructs its own graph
   C09.R5  the limit acts through the truncation only: an import (a module) is withheld from the graph because of the limit only if
           the graph would drop it anyway (both ends flatten to the same node)
+  C09.R6  the constructor evaluated on model modules / imports (absolute and relative, as the concrete Import classes hand them out) and a
+          model of the networkx graph: nodes, import edges and parent-child edges with a limit are the truncated ones of the graph built
+          without a limit; not decided (an observation) when the construction cannot be evaluated
 
 Anchors: the public class `NetworkxGraph` and its constructor signature, the abstract accessors of `Import`, the public functions
 `get_evaluable_architecture*`, the type of the networkx object, literals.  Private helpers are found by role (reachability, data flow,
@@ -66,6 +75,118 @@ def _model_import(importer: str, importee: str) -> NativeObj:
     )
 
 
+def _record_import(rec: tuple) -> NativeObj:
+    """An `Import` as one of the concrete classes of the analysed code produces it (see `import_records`)."""
+    importer, importee, ip, ep, label = rec
+    return NativeObj(
+        f"<{label} {importer} -> {importee}>",
+        {"importer": lambda: importer, "importee": lambda: importee, "importer_parent_modules": lambda: list(ip), "importee_parent_modules": lambda: list(ep)},
+    )
+
+
+ACCESSORS = ("importer", "importee", "importer_parent_modules", "importee_parent_modules")
+
+
+def import_records(cx: "Ctx", ev: Evaluator) -> tuple[list[tuple], list[str]]:
+    """What the accessors of the concrete `Import` classes return, tabulated by constructing them (in the evaluator) from their annotated
+    constructor parameters: (importer, importee, importer parents, importee parents, class name).  Only records that differ from the
+    idealised model (`*_parent_modules()` = all proper dotted prefixes of the name) are returned - today: relative imports, whose
+    importee parents are those of the *relative* name.  Second result: classes that could not be tabulated."""
+    repo = cx.repo
+    recs: list[tuple] = []
+    failed: list[str] = []
+    seen: set = set()
+    classes: list[ClassInfo] = []
+    for fq in sorted(cx.import_classes):
+        ci = repo.classes.get(fq)
+        if ci is None:
+            continue
+        for c in [ci, *repo.subclasses(ci)]:
+            if c not in classes:
+                classes.append(c)
+    for c in classes:
+        meths = [repo.lookup_method(c, a) for a in ACCESSORS]
+        if any(m is None or m.is_abstract for m in meths):
+            continue  # abstract: never instantiated
+        init = repo.lookup_method(c, "__init__")
+        if init is None:
+            failed.append(f"{c.name}: no constructor")
+            continue
+        params = init.param_names[1:]
+        got = 0
+        for i in range(0, 8, 2):
+            a, b = NAME_POOL[i], NAME_POOL[i + 1]
+            tails = [".".join(b.split(".")[-2:]), b.split(".")[-1]]
+            choices: list[list] = []
+            n_str = 0
+            for p in params:
+                ks = {m[1] for m in members(cx.T.param_type(init, p)) if m[0] == "b"}
+                if "str" in ks:
+                    if n_str == 0 and "none" not in ks:
+                        choices.append([a])
+                    elif "none" in ks:
+                        choices.append([tails[0], tails[1], None])
+                    else:
+                        choices.append([b, tails[0]])
+                    n_str += 1
+                elif "int" in ks:
+                    choices.append([1, 2])
+                elif "none" in ks:
+                    choices.append([None])
+                elif "bool" in ks:
+                    choices.append([False, True])
+                else:
+                    choices = []
+                    break
+            if not choices and params:
+                failed.append(f"{c.name}: constructor parameter types are not understood")
+                break
+            import itertools
+
+            for combo in itertools.islice(itertools.product(*choices), 40):
+                try:
+                    o = ev._construct(c, list(combo), {})
+                    fr = Frame(None, c.module, Env({}))
+                    vals = [ev.apply(ev.getattr(o, acc, fr), [], {}) for acc in ACCESSORS]
+                except Raised:
+                    continue  # this combination is rejected by the constructor
+                except Unknown:
+                    continue
+                if not (isinstance(vals[0], str) and isinstance(vals[1], str) and all(isinstance(v, list) and all(isinstance(x, str) for x in v) for v in vals[2:])):
+                    continue
+                got += 1
+                if vals[2] == _prefixes(vals[0]) and vals[3] == _prefixes(vals[1]):
+                    continue
+                key = (vals[0], vals[1], tuple(vals[2]), tuple(vals[3]))
+                if key not in seen:
+                    seen.add(key)
+                    recs.append((vals[0], vals[1], tuple(vals[2]), tuple(vals[3]), c.name))
+        if not got and not any(x.startswith(c.name + ":") for x in failed):
+            failed.append(f"{c.name}: no instance could be constructed in the evaluator")
+    # a small, varied selection (generation order: the first pool pair first), one record per shape of names / parents lists
+    picked: list[tuple] = []
+    shapes: set = set()
+    for r in recs:
+        shape = (r[4], len(r[1].split(".")), len(r[3]), len(r[0].split(".")))
+        if shape not in shapes and len(picked) < 6:
+            shapes.add(shape)
+            picked.append(r)
+    return picked, failed
+
+
+def _squeeze(names: list) -> list:
+    """Consecutive duplicates removed: the quotient of a chain (module hierarchy) keeps each collapsed node once."""
+    out: list = []
+    for x in names:
+        if not out or out[-1] != x:
+            out.append(x)
+    return out
+
+
+def _is_name_or_parent(x: object, used: list) -> bool:
+    return isinstance(x, str) and any(x == u or (isinstance(u, str) and u.startswith(x + ".")) for u in used)
+
+
 def trunc(name: str, limit: int | None) -> str:
     """The specification of the truncation."""
     return name if limit is None else ".".join(name.split(".")[: limit + 1])
@@ -108,6 +229,8 @@ class Ctx:
         self.limit_index = names.index(self.limit_param)
         it = elem_type(self.T.param_type(init, self.imports_param))
         self.import_classes = {m[1] for m in members(it) if m[0] == "cls"} or {IMPORT_CLASS}
+        self.pending_unary: list[tuple[str, str, str]] = []
+        self.r1_pending: list[dict] = []
 
     # -- roles -------------------------------------------------------------------------------------
     def is_graph(self, f: FuncInfo, e: ast.AST) -> bool:
@@ -218,6 +341,11 @@ class Flattening:
                     self.carriers.add(k)
         self.flat_exprs: dict[int, str] = {}  # id(expr) -> verdict
         self.verdicts: list[dict] = []
+        # Import records of the concrete classes that the idealised model does not cover (tabulated in extra rounds)
+        try:
+            self.records, self.records_failed = import_records(cx, Evaluator(cx.repo, tolerant=True))
+        except (Unknown, Raised, AnalysisError) as e:
+            self.records, self.records_failed = [], [f"Import classes: {e}"]
 
     @staticmethod
     def _sig(v: object) -> str:
@@ -334,6 +462,17 @@ class Flattening:
                 found.append(None)
         return found[0] if len(found) == 1 else None
 
+    def _raw_definition(self, f: FuncInfo, name: str, flow: Flow):
+        """The only definition of a raw local, when it is an expression that does not depend on the limit (None otherwise)."""
+        cache = self.__dict__.setdefault("_rawdef", {})
+        key = (f.fq, name)
+        if key not in cache:
+            d = None if name in f.param_names else self._single_def(f, name)
+            if not isinstance(d, ast.expr) or isinstance(d, ast.Lambda) or self.depends_on_limit(f, d, flow):
+                d = None
+            cache[key] = d
+        return cache[key]
+
     def _bind(self, f: FuncInfo, e: ast.expr, flow: Flow, lim: object, rnd: int) -> tuple[dict, list[str]]:
         """Environment for tabulating `e` (an expression of construction function `f`) on a graph with limit `lim`: the receiver is the
         graph object, raw names are test names, values derived from the limit only are the limit, local aliases / lambdas / nested
@@ -350,6 +489,7 @@ class Flattening:
             env[f.param_names[0]] = self.objs[lim]
         i = 0
         aliases: list[tuple[str, ast.expr]] = []
+        raw_fallback: dict[str, object] = {}
         queue: list[ast.AST] = [e]
         while queue:
             x = queue.pop()
@@ -361,10 +501,24 @@ class Flattening:
                     continue
                 tags = flow.tags(n)
                 if self.cx.is_import_value(f, n):
+                    if rnd >= len(NAME_POOL) and self.records:
+                        rec = self.records[(rnd - len(NAME_POOL) + i // 2) % len(self.records)]
+                        i += 2
+                        env[n.id] = _record_import(rec)
+                        used += [rec[0], rec[1], *rec[2], *rec[3]]
+                        continue
                     a, b = NAME_POOL[(i + rnd) % len(NAME_POOL)], NAME_POOL[(i + rnd + 1) % len(NAME_POOL)]
                     i += 2
                     env[n.id] = _model_import(a, b)
                     used += [a, b, *_prefixes(a), *_prefixes(b)]
+                elif "RAW" in tags and "FLAT" not in tags and len(aliases) < 12 and self._raw_definition(f, n.id, flow) is not None:
+                    # a raw local with one definition (`parents = get_parent_modules(importee)`, `importee = imp.importee()`): evaluate the
+                    # definition, so that names that belong together (a name and its parents list) stay related; pool name as a fallback
+                    d = self._raw_definition(f, n.id, flow)
+                    env[n.id] = POISON
+                    aliases.append((n.id, d))
+                    raw_fallback[n.id] = self.cx.T.expr(f, n)
+                    queue.append(d)
                 elif "RAW" in tags or "FLAT" in tags:
                     name = NAME_POOL[(i + rnd) % len(NAME_POOL)]
                     other = NAME_POOL[(i + rnd + 1) % len(NAME_POOL)]
@@ -384,11 +538,31 @@ class Flattening:
                     elif isinstance(d, (ast.Lambda, ast.Attribute, ast.Call, ast.Name, ast.IfExp)) and len(aliases) < 8:
                         aliases.append((n.id, d))
                         queue.append(d)
-        for name, rhs in reversed(aliases):
-            try:
-                env[name] = self.ev.ev(rhs, Frame(f, f.module, envobj))
-            except (Unknown, Raised):
-                env[name] = POISON
+        # definitions are evaluated once everything they mention is known (a few passes; the rest stays undetermined)
+        pending = dict(reversed(aliases))
+        for _ in range(len(pending) + 1):
+            progress = False
+            for name, rhs in list(pending.items()):
+                if any(isinstance(x, ast.Name) and x.id in pending and x.id != name for x in ast.walk(rhs)):
+                    continue
+                del pending[name]
+                progress = True
+                try:
+                    env[name] = self.ev.ev(rhs, Frame(f, f.module, envobj))
+                except (Unknown, Raised):
+                    env[name] = POISON
+            if not progress:
+                break
+        for name, t in raw_fallback.items():
+            v = env.get(name)
+            if v is POISON or name in pending or self._leaves(v) is None:
+                pool, other = NAME_POOL[(i + rnd) % len(NAME_POOL)], NAME_POOL[(i + rnd + 1) % len(NAME_POOL)]
+                i += 1
+                coll = any(m[0] == "b" and m[1] in ("list", "seq", "iter", "tuple", "set", "frozenset") for m in members(t))
+                env[name] = [pool, other] if coll else pool
+                used += [pool, other] if coll else [pool]
+            else:
+                used += [x for x in self._leaves(v) if x not in used]
         return env, used
 
     @staticmethod
@@ -415,7 +589,16 @@ class Flattening:
             return {"verdict": "unknown", "why": self.build_error}
         rows: dict[tuple[int, object], tuple] = {}
         why = ""
-        for rnd in range(len(NAME_POOL)):
+        rounds = list(range(len(NAME_POOL)))
+        try:
+            probe, _ = self._bind(f, e, flow, None, 0)
+        except (Unknown, Raised):
+            probe = {}
+        has_imp = any(isinstance(v, NativeObj) for v in probe.values())
+        if has_imp:
+            # names as the concrete Import classes hand them out (relative imports: the parents list is not the prefix chain of the importee)
+            rounds += [len(NAME_POOL) + k for k in range(len(self.records))]
+        for rnd in rounds:
             for lim in LIMITS:
                 env, used = self._bind(f, e, flow, lim, rnd)
                 fr = Frame(f, f.module, Env(env))
@@ -433,32 +616,68 @@ class Flattening:
                     rows[(rnd, lim)] = ("unknown", str(u), used)
                     why = why or str(u)
         kinds = {r[0] for r in rows.values()}
+        if any(r[0] == "other" and not isinstance(r[3], bool) for r in rows.values()):
+            # the value is an object / a number / a dict (a record built around names, a count, ...): not a name, not a test - what matters
+            # are the expressions inside it and what is read from it later
+            return {"verdict": "opaque"}
         if "unknown" in kinds:
             return {"verdict": "unknown", "why": why}
-        dependent = any(rows[(rnd, lim)][:2] != rows[(rnd, None)][:2] for rnd in range(len(NAME_POOL)) for lim in LIMITS)
+        dependent = any(rows[(rnd, lim)][:2] != rows[(rnd, None)][:2] for rnd in rounds for lim in LIMITS)
         if not dependent:
             return {"verdict": "independent"}
-        if all(r[0] == "other" and isinstance(r[3], bool) for r in rows.values()):
-            return self._classify_predicate(rows)
-        cut_only = all(rows[(rnd, None)][0] == "raise" for rnd in range(len(NAME_POOL)))
+        limited = {k: r for k, r in rows.items() if k[1] is not None}
+        if all(r[0] == "other" and isinstance(r[3], bool) for r in rows.values()) or (
+            # a test that is only evaluated (only evaluable) when a limit is set: `name.count(".") > self._level_limit`
+            all(r[0] == "other" and isinstance(r[3], bool) for r in limited.values()) and all(r[0] == "raise" for k, r in rows.items() if k[1] is None)
+        ):
+            if self._name_arity(f, e, flow) < 2:
+                return {"verdict": "predicate-unary"}
+            return self._classify_predicate(rows if all(r[0] == "other" for r in rows.values()) else limited)
+
+        def origin(rnd: int) -> str:
+            if rnd < len(NAME_POOL) or not self.records:
+                return ""
+            rec = self.records[(rnd - len(NAME_POOL)) % len(self.records)]
+            return f" - names as a {rec[4]} hands them out: importer() = {rec[0]!r}, importee() = {rec[1]!r}, importer_parent_modules() = {list(rec[2])}, importee_parent_modules() = {list(rec[3])}"
+
+        cut_only = all(rows[(rnd, None)][0] == "raise" for rnd in rounds)
         if cut_only and self.unreachable_without_limit(f, e):
             # the expression is only evaluated when a limit is set; what happens without one is decided by the code around it
             pass
         else:
             cut_only = False
-            for rnd in range(len(NAME_POOL)):
+            for rnd in rounds:
                 base = rows[(rnd, None)]
-                if base[0] != "names" or any(x not in base[2] for x in base[1]):
-                    return {"verdict": "wrong-identity", "example": f"without a limit {self._show(base)} is produced from {base[2]}"}
-        for rnd in range(len(NAME_POOL)):
+                # without a limit the expression hands on the names it was given (or parents of them: a module hierarchy)
+                if base[0] != "names" or any(not _is_name_or_parent(x, base[2]) for x in base[1]) or (len(base[1]) == 1 and base[1][0] not in base[2]):
+                    return {"verdict": "wrong-identity", "example": f"without a limit {self._show(base)} is produced from {base[2]}{origin(rnd)}"}
+        squeezed = False
+        for rnd in rounds:
             base = rows[(rnd, None)]
             names = list(base[2]) if cut_only else base[1]
             for lim in LIMITS[1:]:
                 got = rows[(rnd, lim)]
                 want = [trunc(x, lim) for x in names]
-                if got[0] != "names" or got[1] != want:
-                    return {"verdict": "wrong-cut", "example": f"with limit {lim}, {names} becomes {self._show(got)} instead of {want}"}
-        return {"verdict": "cut-only" if cut_only else "flatten"}
+                if got[0] == "names" and got[1] == want:
+                    continue
+                if got[0] == "names" and not cut_only and len(want) > 1 and got[1] == _squeeze(want):
+                    squeezed = True  # a chain (module hierarchy) whose collapsed members appear once
+                    continue
+                return {"verdict": "wrong-cut", "example": f"with limit {lim}, {names} becomes {self._show(got)} instead of {want}{origin(rnd)}"}
+        if has_imp and self.records_failed and any(isinstance(n, ast.Attribute) and n.attr in ACCESSORS[2:] for n in ast.walk(e)):
+            # the verdict rests on the idealised model of the parents lists, and the real classes could not be tabulated
+            return {"verdict": "unknown", "why": "the node names are derived from the parents lists of an Import, and what the Import classes return there cannot be tabulated (" + "; ".join(self.records_failed[:2]) + ")"}
+        return {"verdict": "cut-only" if cut_only else "flatten", "squeezed": squeezed}
+
+    def _name_arity(self, f: FuncInfo, e: ast.expr, flow: Flow) -> int:
+        """How many different names (raw / flattened variables, accessors of an import) a test speaks about."""
+        seen: set[str] = set()
+        for n in ast.walk(e):
+            if isinstance(n, ast.Attribute) and isinstance(n.value, ast.Name) and self.cx.is_import_value(f, n.value):
+                seen.add(f"{n.value.id}.{n.attr}")
+            elif isinstance(n, ast.Name) and isinstance(n.ctx, ast.Load) and not self.cx.is_import_value(f, n) and set(flow.tags(n)) & {"RAW", "FLAT"}:
+                seen.add(n.id)
+        return len(seen)
 
     @staticmethod
     def _classify_predicate(rows: dict) -> dict:
@@ -521,6 +740,65 @@ class Flattening:
         return f"{row[1]}" if row[0] in ("names", "other") else f"<{row[0]}: {row[1]}>"
 
 
+class LoopFlow(Flow):
+    """The shared flow engine binds the target of a `for` weakly (old tags | element tags) at the loop header, for the body as well as for
+    the code after the loop.  Inside the body the target is always freshly bound, so a loop variable that re-uses the name of a raw
+    parameter (`for parent, child in zip(flattened, flattened[1:])` in a function with a parameter `child`) is what the iterable yields
+    and nothing else.  This subclass hands the strongly updated state to the body edge and keeps the weak one for the exit edge."""
+
+    def _analyse(self, fi: FuncInfo) -> None:
+        from core.cfg import ENTRY
+
+        cfg = self.cfg(fi)
+        init: dict[str, frozenset] = {}
+        for p in fi.param_names:
+            t = self.param_tags.get((fi.fq, p), frozenset())
+            if t:
+                init[p] = t
+        if not hasattr(self, "_final_env"):
+            self._final_env = {}
+        if fi.outer is not None:
+            for k, v in self._final_env.get(fi.outer.fq, {}).items():
+                init.setdefault(k, v)
+        states: dict[object, dict[str, frozenset]] = {ENTRY: init}
+        work = [ENTRY]
+        order = 0
+        final_env: dict[str, frozenset] = dict(init)
+        while work:
+            n = work.pop()
+            order += 1
+            if order > 20000:
+                break
+            st = states.get(n, {})
+            out = dict(st)
+            body_out = None
+            if isinstance(n, ast.AST):
+                for var, t in st.items():
+                    self.var_at[(id(n), var)] = t
+                self._stmt(fi, n, out)
+                if isinstance(n, (ast.For, ast.AsyncFor)):
+                    body_out = dict(st)
+                    self._assign(fi, n.target, self._it(self._expr(fi, n.iter, body_out)), body_out, n.iter)
+                for k, v in out.items():
+                    if v:
+                        final_env[k] = final_env.get(k, frozenset()) | v
+            for m in cfg.g.successors(n):
+                o = body_out if body_out is not None and cfg.g[n][m].get("labels") == {True} else out
+                old = states.get(m)
+                if old is None:
+                    states[m] = dict(o)
+                    work.append(m)
+                else:
+                    changed = False
+                    for k, v in o.items():
+                        if not v <= old.get(k, frozenset()):
+                            old[k] = old.get(k, frozenset()) | v
+                            changed = True
+                    if changed:
+                        work.append(m)
+        self._final_env[fi.fq] = final_env
+
+
 def run_flow(cx: Ctx, cons: list[FuncInfo], flat: dict[int, str]) -> Flow:
     T = cx.T
     consset = set(cons)
@@ -538,7 +816,7 @@ def run_flow(cx: Ctx, cons: list[FuncInfo], flat: dict[int, str]) -> Flow:
         return tags
 
     seeds = {(cx.init.fq, cx.modules_param): {"RAW"}, (cx.init.fq, cx.limit_param): {"LIMIT"}}
-    return Flow(cx.repo, T, Spec(sources=sources, post=post, param_seeds=seeds, objects_carry=False, scope=lambda f: f in consset))
+    return LoopFlow(cx.repo, T, Spec(sources=sources, post=post, param_seeds=seeds, objects_carry=False, scope=lambda f: f in consset))
 
 
 def rule_r1_r3(cx: Ctx, cons: list[FuncInfo]) -> Flow:
@@ -557,6 +835,8 @@ def rule_r1_r3(cx: Ctx, cons: list[FuncInfo]) -> Flow:
             continue
         v = fl.classify(f, e, flow1)
         verdict = v["verdict"]
+        if verdict == "opaque":
+            continue
         if verdict not in ("independent",) and not (verdict == "unknown" and not fl.depends_on_limit(f, e, flow1)):
             covered |= {id(x) for x in ast.walk(e)}
         if verdict == "cut-only":
@@ -574,7 +854,8 @@ def rule_r1_r3(cx: Ctx, cons: list[FuncInfo]) -> Flow:
                     where(f, e), kind="decision-table",
                 )
             else:
-                res.undecide("C09.R2", pkey, f"`{norm(e, 70)}` is a test on a name that depends on the level limit; its role in the construction is not understood", where(f, e))
+                # what such a test makes the construction keep or drop is judged by the construction table (C09.R6) when it can be evaluated
+                cx.pending_unary.append((pkey, f"`{norm(e, 70)}` is a test on a name that depends on the level limit; its role in the construction is not understood", where(f, e)))
             continue
         tg = fl.targets(f, e)
         owner = tg[0] if len(tg) == 1 else f
@@ -694,11 +975,11 @@ def rule_r1_r3(cx: Ctx, cons: list[FuncInfo]) -> Flow:
                     sf, sn = stray[0]
                     res.undecide("C09.R1", key, f"`{norm(a, 40)}` reaches {what} without a recognised truncation, but {sf.qualname} uses the limit in `{header(stmt_of(sn))}` in a way that is not understood", where(f, node))
                     continue
-                res.add(
-                    "C09.R1", key, ok,
-                    "flattened name" if ok else f"`{norm(a, 40)}` reaches {what} without having passed the level-limit truncation: with a level limit, nodes/edges below the limit enter the graph (or are looked up) un-truncated",
-                    where(f, node), kind="flow",
-                )
+                if ok:
+                    res.add("C09.R1", key, True, "flattened name", where(f, node), kind="flow")
+                else:
+                    # a may-flow finding: confronted with the values that reach this sink when the constructor is evaluated (rule_r6)
+                    cx.r1_pending.append({"key": key, "f": f, "node": node, "arg": a, "what": what, "where": where(f, node)})
     for f in cons:
         for w in E.writes(f):
             if w.root_kind not in ("classvar", "global"):
@@ -719,7 +1000,8 @@ def rule_r1_r3(cx: Ctx, cons: list[FuncInfo]) -> Flow:
     if not n_flat and not res.undecided:
         # nothing in the construction code depends on the limit at all: the limit is ignored
         lim_used = bool(fl.carriers) or stray_limit
-        res.add("C09.R3", f"{cx.g.module.relpath}::{cx.g.name}::the limit reaches a truncation", False, "the level limit " + ("is stored but never applied to a node name" if lim_used else "is ignored by the graph") + ": the graph is not flattened", where(cx.init, cx.init.node), kind="flow")
+        cx.limit_unused = "the level limit " + ("is stored but never applied to a node name" if lim_used else "is ignored by the graph") + ": the graph is not flattened"
+    cx.import_records = fl.records
     return flow
 
 
@@ -767,6 +1049,30 @@ def _unmodified_param(f: FuncInfo, e: ast.expr) -> str | None:
     return e.id
 
 
+def _param_path(f: FuncInfo, e: ast.expr) -> tuple[str, list[str]] | None:
+    """`p` / `p.a.b` for a parameter p of `f` that is neither re-bound nor has attributes stored to in `f`: (p, [a, b])."""
+    path: list[str] = []
+    root = e
+    while isinstance(root, ast.Attribute):
+        path.append(root.attr)
+        root = root.value
+    if not isinstance(root, ast.Name) or root.id not in f.param_names:
+        return None
+    for n in own_nodes(f.node):
+        if isinstance(n, ast.Name) and n.id == root.id and isinstance(n.ctx, (ast.Store, ast.Del)):
+            return None
+        if path and isinstance(n, ast.Attribute) and isinstance(n.ctx, (ast.Store, ast.Del)) and isinstance(n.value, ast.Name) and n.value.id == root.id:
+            return None
+    return root.id, list(reversed(path))
+
+
+def _with_path(base: ast.expr, path: list[str]) -> ast.expr:
+    out = base
+    for a in path:
+        out = ast.copy_location(ast.Attribute(value=out, attr=a, ctx=ast.Load()), base)
+    return out
+
+
 def _arg_for(callee: FuncInfo, call: ast.Call, pname: str) -> ast.expr | None:
     a = callee.node.args
     pos = [p.arg for p in [*a.posonlyargs, *a.args]]
@@ -782,16 +1088,67 @@ def _arg_for(callee: FuncInfo, call: ast.Call, pname: str) -> ast.expr | None:
     return None
 
 
+def _expand_property_atoms(cx: Ctx, f: FuncInfo, fm, depth: int = 0):
+    """`bool(edge.is_loop)` -> the formula of the property's returned expression with `self` replaced by `edge` (one-line properties of
+    classes of the analysed code; guard_formula inlines helper functions, not properties of other objects)."""
+    from .common import truth
+
+    if depth > 3:
+        return fm
+    if fm[0] in ("and", "or"):
+        return (fm[0], [_expand_property_atoms(cx, f, x, depth) for x in fm[1]])
+    if fm[0] == "not":
+        return f_not(_expand_property_atoms(cx, f, fm[1], depth))
+    if fm[0] != "atom":
+        return fm
+    try:
+        e = ast.parse(fm[1], mode="eval").body
+    except SyntaxError:
+        return fm
+    if isinstance(e, ast.Call) and isinstance(e.func, ast.Name) and e.func.id == "bool" and len(e.args) == 1 and not e.keywords:
+        e = e.args[0]
+    if not isinstance(e, ast.Attribute):
+        return fm
+    try:
+        t = cx.T.expr(f, e.value)
+    except Exception:  # noqa: BLE001
+        return fm
+    impls = []
+    for m in members(t):
+        if m[0] == "cls" and m[1] in cx.repo.classes:
+            meth = cx.repo.lookup_method(cx.repo.classes[m[1]], e.attr)
+            if meth is not None and meth.is_property:
+                impls.append(meth)
+    if len(impls) != 1 or not impls[0].param_names:
+        return fm
+    body = [st for st in impls[0].node.body if not (isinstance(st, ast.Expr) and isinstance(st.value, ast.Constant))]
+    if len(body) != 1 or not isinstance(body[0], ast.Return) or body[0].value is None:
+        return fm
+    me = impls[0].param_names[0]
+
+    class Sub(ast.NodeTransformer):
+        def visit_Name(self, n: ast.Name):  # noqa: N802
+            return ast.copy_location(ast.parse(ast.unparse(e.value), mode="eval").body, n) if n.id == me else n
+
+    new = Sub().visit(ast.parse(ast.unparse(body[0].value), mode="eval").body)
+    ast.fix_missing_locations(new)
+    try:
+        return _expand_property_atoms(cx, f, truth(f, new), depth + 1)
+    except AnalysisError:
+        return fm
+
+
 def guarded_distinct(cx: Ctx, cons: list[FuncInfo], f: FuncInfo, node: ast.AST, u: ast.expr, v: ast.expr, depth: int = 0) -> tuple[bool | None, str]:
     """Is `node` only evaluated when u != v?  (True / False / None = cannot tell)"""
     try:
-        gf = guard_formula(f, node)
+        gf = _expand_property_atoms(cx, f, guard_formula(f, node))
         for x, y in ((u, v), (_alias_source(f, u), _alias_source(f, v))):
             if implies(gf, f_not(_eq_atom(x, y))):
                 return True, f"guarded in {f.qualname}"
     except AnalysisError as e:
         return None, str(e)
-    pu, pv = _unmodified_param(f, u), _unmodified_param(f, v)
+    ppu, ppv = _param_path(f, u), _param_path(f, v)
+    pu, pv = (ppu[0] if ppu else None), (ppv[0] if ppv else None)
     if depth < 3 and pu and pv:
         sites = []
         for h in cons:
@@ -808,6 +1165,7 @@ def guarded_distinct(cx: Ctx, cons: list[FuncInfo], f: FuncInfo, node: ast.AST, 
                 x, y = _arg_for(f, c, pu), _arg_for(f, c, pv)
                 if x is None or y is None:
                     return None, f"call `{norm(c, 60)}` of {f.qualname} binds its arguments in a way that is not understood"
+                x, y = _with_path(x, ppu[1]), _with_path(y, ppv[1])  # `edge.start` inside the callee is `<argument>.start` at the call
                 ok, why = guarded_distinct(cx, cons, h, c, x, y, depth + 1)
                 if not ok:
                     return ok, why
@@ -926,6 +1284,269 @@ def rule_r2(cx: Ctx, cons: list[FuncInfo], flow: Flow) -> None:
     res.floor("C09.R2", 1, n)
 
 
+# --------------------------------------------------------------------------- R6: the construction, tabulated on a model graph
+
+
+class ModelGraph:
+    """A model of `networkx.DiGraph` (nodes, edges, attribute dicts; insertion-ordered) on which the constructor is evaluated."""
+
+    def __init__(self) -> None:
+        self.nodes: dict = {}
+        self.edges: dict = {}
+        self.unreliable: str | None = None
+        m = {
+            "add_node": self.add_node, "add_nodes_from": self.add_nodes_from, "add_edge": self.add_edge, "add_edges_from": self.add_edges_from,
+            "has_node": self.has_node, "has_edge": self.has_edge, "get_edge_data": self.get_edge_data, "__contains__": self.has_node,
+            "__getitem__": self.adj, "__iter__": lambda: list(self.nodes), "number_of_nodes": lambda: len(self.nodes), "number_of_edges": lambda: len(self.edges),
+            "successors": lambda n: [v for (u, v) in self.edges if u == n], "predecessors": lambda n: [u for (u, v) in self.edges if v == n],
+            "nodes": lambda: list(self.nodes), "edges": lambda: list(self.edges),
+        }
+
+        def no_options(what: str, result):
+            def call(*a: object, **k: object):
+                if a or k:
+                    raise Unknown(f"{what}(...) with arguments is not modelled")
+                return result()
+
+            return call
+
+        views = {
+            "nodes": NativeObj("<nodes view>", {"__contains__": self.has_node, "__iter__": lambda: list(self.nodes), "__getitem__": self.node_attrs, "__call__": no_options("nodes", lambda: list(self.nodes))}, {}, poison_ok=True),
+            "edges": NativeObj("<edges view>", {"__contains__": self.has_edge_pair, "__iter__": lambda: list(self.edges), "__getitem__": self.edge_attrs, "__call__": no_options("edges", lambda: list(self.edges))}, {}, poison_ok=True),
+        }
+        for k in views:
+            del m[k]
+        self.native = NativeObj("<model of networkx.DiGraph>", m, views, poison_ok=True)
+
+    def node_attrs(self, n: object = POISON):
+        if not self._ok(n):
+            return POISON
+        if n not in self.nodes:
+            raise Raised("KeyError")
+        return self.nodes[n]
+
+    def has_edge_pair(self, e: object = POISON):
+        if not isinstance(e, tuple) or len(e) != 2:
+            self.unreliable = self.unreliable or "membership of something that is not a pair in the edges of the graph"
+            return POISON
+        return self.has_edge(*e)
+
+    def edge_attrs(self, e: object = POISON):
+        if not isinstance(e, tuple) or len(e) != 2 or not self._ok(*e):
+            self.unreliable = self.unreliable or "subscript of the edges of the graph with something that is not a pair of names"
+            return POISON
+        if e not in self.edges:
+            raise Raised("KeyError")
+        return self.edges[e]
+
+    def _ok(self, *names: object) -> bool:
+        for n in names:
+            if not isinstance(n, str):
+                self.unreliable = self.unreliable or f"a node that is not a determined name ({n!r}) reaches the graph"
+                return False
+        return True
+
+    def add_node(self, n: object = POISON, **attr: object):
+        if self._ok(n):
+            self.nodes.setdefault(n, {}).update(attr)
+
+    def add_nodes_from(self, it: object = POISON, **attr: object):
+        if it is POISON or isinstance(it, (str, NativeObj, Obj)):
+            self.unreliable = self.unreliable or "add_nodes_from on an undetermined collection"
+            return
+        for n in list(it):  # type: ignore[call-overload]
+            self.add_node(n, **attr)
+
+    def add_edge(self, u: object = POISON, v: object = POISON, **attr: object):
+        if self._ok(u, v):
+            if any(x is POISON for x in attr.values()):
+                self.unreliable = self.unreliable or "an undetermined edge attribute"
+            self.nodes.setdefault(u, {})
+            self.nodes.setdefault(v, {})
+            self.edges.setdefault((u, v), {}).update(attr)
+
+    def add_edges_from(self, it: object = POISON, **attr: object):
+        if it is POISON or isinstance(it, (str, NativeObj, Obj)):
+            self.unreliable = self.unreliable or "add_edges_from on an undetermined collection"
+            return
+        for e in list(it):  # type: ignore[call-overload]
+            if not isinstance(e, (tuple, list)) or len(e) not in (2, 3) or (len(e) == 3 and not isinstance(e[2], dict)):
+                self.unreliable = self.unreliable or "add_edges_from: an element that is not an edge"
+                return
+            self.add_edge(e[0], e[1], **{**attr, **(e[2] if len(e) == 3 else {})})
+
+    def has_node(self, n: object = POISON):
+        return POISON if not self._ok(n) else n in self.nodes
+
+    def has_edge(self, u: object = POISON, v: object = POISON):
+        return POISON if not self._ok(u, v) else (u, v) in self.edges
+
+    def get_edge_data(self, u: object = POISON, v: object = POISON, default: object = None):
+        return POISON if not self._ok(u, v) else self.edges.get((u, v), default)
+
+    def adj(self, n: object = POISON):
+        if not self._ok(n):
+            return POISON
+        if n not in self.nodes:
+            raise Raised("KeyError")
+        return {v: a for (u, v), a in self.edges.items() if u == n}
+
+
+R6_PAIRS = (
+    ("proj.core.api.handlers", "proj.core.api_v2.schema"), ("proj.core.api.handlers.v1", "proj.core.api.models.user"), ("proj.core.db.model", "proj.core.db.models.user"),
+    ("proj.core.util", "proj.core.utils.text"), ("proj.core.api.handlers.v1", "proj.core.api.handlers.v2"), ("proj.a.x", "proj.b.y"), ("proj.core.api.a.b.c", "proj.core.api.a.b.d"),
+    ("proj.ab", "proj.a"), ("proj.b.y", "proj.a.x"), ("proj.core.api_v2.schema", "proj.core.api_v2.schema.types"), ("pkg.one", "proj.core.db"),
+)
+R6_LONE_MODULES = ("proj.lonely.deep.mod.x", "solo")
+
+
+def _related(a: str, b: str) -> bool:
+    """One is a proper dotted prefix of the other."""
+    return a.startswith(b + ".") or b.startswith(a + ".")
+
+
+def rule_r6(cx: Ctx, records: list[tuple]) -> bool:
+    """The constructor evaluated on model modules / imports and a model of the networkx graph, once without a limit and once per limit:
+    nodes, import edges and hierarchy edges of the limited graph are those of the full graph with truncated names (self-edges dropped)."""
+    res = cx.res
+    key = f"{cx.g.module.relpath}::{cx.g.name}::the limited graph is the quotient of the full graph (model inputs)"
+    imports: list[NativeObj] = [_model_import(a, b) for a, b in R6_PAIRS]
+    ends: list[tuple[str, str, str]] = [(a, b, "") for a, b in R6_PAIRS]
+    for rec in records[:4]:
+        imports.append(_record_import(rec))
+        ends.append((rec[0], rec[1], f" ({rec[4]}, importee_parent_modules() = {list(rec[3])})"))
+    names: set[str] = set(R6_LONE_MODULES)
+    for a, b, _ in ends:
+        names |= {a, b, *_prefixes(a), *_prefixes(b)}
+    for n in R6_LONE_MODULES:
+        names |= set(_prefixes(n))
+    modules = sorted(names)
+    graphs: dict[object, ModelGraph] = {}
+    created: list[ModelGraph] = []
+
+    def factory(args: list, kwargs: dict):
+        g = ModelGraph()
+        if args or kwargs:
+            g.unreliable = "the networkx graph is created from existing data"
+        created.append(g)
+        return g.native
+
+    # sinks for which the static flow (R1) could not show a truncation: the values that reach them are recorded
+    seen_at: dict[int, dict[object, list]] = {}
+
+    def watch(ev: Evaluator, lim: object) -> None:
+        for k, p in enumerate(cx.r1_pending):
+            a = p["arg"]
+            if any(isinstance(x, (ast.Call, ast.Lambda, ast.NamedExpr, ast.Await, ast.Yield, ast.YieldFrom, ast.ListComp, ast.SetComp, ast.DictComp, ast.GeneratorExp)) for x in ast.walk(a)):
+                continue  # evaluating it a second time could have effects
+            st = stmt_of(p["node"])
+
+            def hook(fr: Frame, a=a, k=k, lim=lim) -> None:
+                try:
+                    v = Evaluator(cx.repo, tolerant=True).ev(a, fr)
+                except (Unknown, Raised):
+                    v = POISON
+                seen_at.setdefault(k, {}).setdefault(lim, []).append(v)
+
+            prev = ev.stmt_hooks.get(id(st))
+            ev.stmt_hooks[id(st)] = hook if prev is None else (lambda fr, h1=prev, h2=hook: (h1(fr), h2(fr)))
+
+    def build(ev: Evaluator, lim: object, observe: bool = False) -> tuple[ModelGraph | None, str | None]:
+        del created[:]
+        before = ev.uncertain_exits
+        if observe and lim is not None:
+            watch(ev, lim)
+        try:
+            ev._construct(cx.g, [], {cx.modules_param: list(modules), cx.imports_param: list(imports), cx.limit_param: lim})
+        except (Unknown, Raised) as e:
+            return None, f"the constructor cannot be evaluated for limit {lim}: {e}"
+        if len(created) != 1:
+            return None, f"{len(created)} networkx graphs are created"
+        if created[0].unreliable:
+            return None, created[0].unreliable
+        if ev.uncertain_exits != before:
+            return None, "a condition of the construction cannot be evaluated" + (f" ({'; '.join(ev.notes[-2:])})" if ev.notes else "")
+        return created[0], None
+
+    models = {"networkx.DiGraph": factory, "networkx.classes.digraph.DiGraph": factory}
+    for lim in (None, 1, 2, 3):
+        g_, why = build(Evaluator(cx.repo, tolerant=True, lib_models=models), lim, observe=True)
+        if g_ is None:
+            res.observe(f"C09.R6: the construction is not tabulated on the model graph ({why}); the other rules decide")
+            return False
+        graphs[lim] = g_
+    cx.r6_seen = seen_at
+    full = graphs[None]
+    if not full.nodes or not full.edges:
+        res.observe("C09.R6: the model graph stays empty without a limit; the other rules decide")
+        return False
+
+    def kinds(g: ModelGraph) -> tuple[set, set]:
+        imp = {e for e, a in g.edges.items() if not a.get("inherits")}
+        return imp, set(g.edges) - imp
+
+    imp0, inh0 = kinds(full)
+    for lim in (1, 2, 3):
+        g = graphs[lim]
+        t = lambda x, lim=lim: trunc(x, lim)  # noqa: E731
+        want_nodes = {t(n) for n in full.nodes}
+        problem = None
+        if set(g.nodes) != want_nodes:
+            extra, missing = sorted(set(g.nodes) - want_nodes), sorted(want_nodes - set(g.nodes))
+            problem = f"nodes {missing[:3]} are missing" if missing else f"nodes {extra[:3]} are not truncated names of modules of the full graph"
+        elif any(u == v for u, v in g.edges):
+            u = next(u for u, v in g.edges if u == v)
+            src = next(((a, b, note) for a, b, note in ends if t(a) == u and t(b) == u), None)
+            problem = f"the node {u} has an edge to itself" + (f" ({src[0]} imports {src[1]}{src[2]}: both flatten to {u})" if src else "")
+        else:
+            impk, inhk = kinds(g)
+            want_imp = {(t(u), t(v)) for u, v in imp0 if t(u) != t(v)}
+            want_inh = {(t(u), t(v)) for u, v in inh0 if t(u) != t(v)}
+            # an import between a module and its own ancestor / descendant shares its node pair with a hierarchy edge: which flag survives is
+            # a matter of insertion order (also without a limit), not of the quotient
+            clash = {e for e in want_imp | impk if _related(*e)}
+            lost, added = sorted(want_imp - impk - clash), sorted(impk - want_imp - clash)
+            if lost:
+                u, v = lost[0]
+                src = next(((a, b, note) for a, b, note in ends if t(a) == u and t(b) == v), None)
+                problem = f"the import edge {u} -> {v} is missing" + (f" although {src[0]} imports {src[1]}{src[2]}" if src else "")
+            elif added:
+                problem = f"there is an import edge {added[0][0]} -> {added[0][1]} that no import of the full graph flattens to"
+            else:
+                lost_h, added_h = sorted(want_inh - inhk - want_imp), sorted(inhk - want_inh - want_imp)
+                if lost_h:
+                    problem = f"the parent-child edge {lost_h[0][0]} -> {lost_h[0][1]} is missing"
+                elif added_h:
+                    problem = f"there is a parent-child edge {added_h[0][0]} -> {added_h[0][1]} that no edge of the full graph flattens to"
+        if problem:
+            res.add(
+                "C09.R6", key, False,
+                f"{GRAPH_CLASS} evaluated on {len(modules)} model modules and {len(imports)} model imports: with level_limit={lim} {problem} - the limited graph is not the full graph with every name truncated to {lim + 1} parts",
+                where(cx.init, cx.init.node), kind="decision-table",
+            )
+            return True
+    # graphs built one after the other in one process (module-level and class-level values persist): each is what it is when built first
+    shared = Evaluator(cx.repo, tolerant=True, lib_models=models)
+    prev = None
+    for lim in (2, None, 1, 3, None):
+        g_, why = build(shared, lim)
+        if g_ is None:
+            res.observe(f"C09.R6: graphs built one after the other are not tabulated ({why})")
+            break
+        ref = graphs[lim]
+        if set(g_.nodes) != set(ref.nodes) or g_.edges != ref.edges:
+            diff = sorted(set(g_.nodes) ^ set(ref.nodes))[:3] or sorted(set(g_.edges) ^ set(ref.edges))[:2] or [e for e in ref.edges if g_.edges.get(e) != ref.edges[e]][:2]
+            res.add(
+                "C09.R6", f"{cx.g.module.relpath}::{cx.g.name}::a graph does not depend on graphs built before it", False,
+                f"{GRAPH_CLASS} with level_limit={lim} built after a graph with level_limit={prev} differs from the same graph built first (e.g. {diff}): something recorded while building one graph is used for the next",
+                where(cx.init, cx.init.node), kind="decision-table",
+            )
+            return True
+        prev = lim
+    res.add("C09.R6", key, True, f"{GRAPH_CLASS} evaluated on {len(modules)} model modules and {len(imports)} model imports (absolute and relative) for limits None, 1, 2, 3: nodes, import edges and parent-child edges of each limited graph are the truncated ones of the full graph", where(cx.init, cx.init.node), kind="decision-table")
+    return True
+
+
 # --------------------------------------------------------------------------- R4: the limit handed to the graph
 
 
@@ -960,6 +1581,77 @@ def _module_object(path: str):
     return NativeObj(f"<module {path}>", {}, {"__file__": path + "/__init__.py", "__name__": path.rsplit("/", 1)[-1]})
 
 
+def _entry_arguments(cx: Ctx, entry: FuncInfo, style: str, root: str, sub: str) -> tuple[list, dict, str | None]:
+    """Arguments for one call of an entry point (all but the limit) and the name of its limit parameter."""
+    mp = root + sub
+    if style == "paths":
+        args, kwargs = [root, mp], {}
+    elif style == "modules":
+        args, kwargs = [_module_object(root), _module_object(mp)], {}
+    else:  # generate_graph(root_path, module_path, diff, exclusions, exclude_external, limit, external_exclusions)
+        diff = sub.strip("/").replace("/", ".") or "."
+        args, kwargs = [], {}
+        for p in entry.param_names:
+            t = cx.T.param_type(entry, p)
+            ks = {m[1] if m[0] == "b" else (m[1] if m[0] == "lib" else m[0]) for m in members(t)}
+            if "level_limit" in p:
+                continue
+            if "pathlib.Path" in ks:
+                kwargs[p] = PurePosixPath(mp if "module" in p else root)
+            elif "str" in ks and "tuple" not in ks:
+                kwargs[p] = diff
+            elif "bool" in ks:
+                kwargs[p] = True
+            elif "tuple" in ks:
+                kwargs[p] = None if "none" in ks else ()
+            else:
+                kwargs[p] = POISON
+    lp = next((p for p in entry.param_names if p == "level_limit"), None) or next((p for p in entry.param_names if "limit" in p), None)
+    return args, kwargs, lp
+
+
+def repeated_calls(cx: Ctx, entry: FuncInfo, style: str) -> list[tuple]:
+    """Two calls of the entry point for the same paths with different limits, evaluated one after the other on the *same* evaluator
+    (module-level and class-level values persist between the calls, as they do in one Python process).  Yields
+    (first limit, second limit, depth, module path, outcome) for every second call whose outcome is certain and is not 'one graph
+    constructed with the user's limit plus the depth'; outcome = ("no-construction",) | ("value", v)."""
+    bad: list[tuple] = []
+    root = "/srv/work/proj"
+    for sub in ("", "/core/domain"):
+        depth = sub.count("/")
+        for first, second in ((1, 2), (None, 1), (2, None)):
+            caps = [Capture(cx), Capture(cx)]
+            ev = Evaluator(cx.repo, tolerant=True, intercept={cx.g.fq: caps[0]})
+            ok = True
+            for k, lim in enumerate((first, second)):
+                ev.intercept[cx.g.fq] = caps[k]
+                before = ev.uncertain_exits
+                try:
+                    args, kwargs, lp = _entry_arguments(cx, entry, style, root, sub)
+                    if lp is None:
+                        return []
+                    kwargs[lp] = lim
+                    ev.call_function(entry, args, kwargs)
+                except (Raised, Unknown):
+                    if not caps[k].calls:
+                        ok = False
+                        break
+                st, v = caps[k].limit()
+                want = None if lim is None else lim + depth
+                if k == 0:
+                    if st != "ok" or v != want:
+                        ok = False  # the first call is what the single-call table judges
+                        break
+                    continue
+                if not ok:
+                    break
+                if st == "ok" and v != want:
+                    bad.append((first, second, depth, root + sub, ("value", v)))
+                elif not caps[k].calls and ev.uncertain_exits == before:
+                    bad.append((first, second, depth, root + sub, ("no-construction",)))
+    return bad
+
+
 def tabulate_limit(cx: Ctx, entry: FuncInfo, style: str) -> tuple[list[tuple], str | None]:
     """Rows (user limit, depth, outcome) of the limit received by the graph; or the reason why it cannot be tabulated."""
     rows: list[tuple] = []
@@ -972,29 +1664,7 @@ def tabulate_limit(cx: Ctx, entry: FuncInfo, style: str) -> tuple[list[tuple], s
             ev = Evaluator(cx.repo, tolerant=True, intercept={cx.g.fq: cap})
             mp = root + sub
             try:
-                if style == "paths":
-                    args, kwargs = [root, mp], {}
-                elif style == "modules":
-                    args, kwargs = [_module_object(root), _module_object(mp)], {}
-                else:  # generate_graph(root_path, module_path, diff, exclusions, exclude_external, limit, external_exclusions)
-                    diff = sub.strip("/").replace("/", ".") or "."
-                    args, kwargs = [], {}
-                    for p in entry.param_names:
-                        t = cx.T.param_type(entry, p)
-                        ks = {m[1] if m[0] == "b" else (m[1] if m[0] == "lib" else m[0]) for m in members(t)}
-                        if "level_limit" in p:
-                            continue
-                        if "pathlib.Path" in ks:
-                            kwargs[p] = PurePosixPath(mp if "module" in p else root)
-                        elif "str" in ks and "tuple" not in ks:
-                            kwargs[p] = diff
-                        elif "bool" in ks:
-                            kwargs[p] = True
-                        elif "tuple" in ks:
-                            kwargs[p] = None if "none" in ks else ()
-                        else:
-                            kwargs[p] = POISON
-                lp = next((p for p in entry.param_names if p == "level_limit"), None) or next((p for p in entry.param_names if "limit" in p), None)
+                args, kwargs, lp = _entry_arguments(cx, entry, style, root, sub)
                 if lp is None:
                     return rows, f"{entry.qualname} has no level_limit parameter"
                 kwargs[lp] = lim
@@ -1039,6 +1709,7 @@ def rule_r4(cx: Ctx, scan_depends_on_limit: bool = False) -> None:
             continue
         decided += 1
         _judge_limit_rows(cx, entry, rows)
+        _judge_repeated_calls(cx, entry, style)
     if not decided:
         # the public entry points cannot be evaluated: tabulate the function that constructs the graph
         builders = [f for f, _c in cx.ctor_sites() if f.outer is None and f.cls is None]
@@ -1048,6 +1719,7 @@ def rule_r4(cx: Ctx, scan_depends_on_limit: bool = False) -> None:
             if why is None:
                 decided += 1
                 _judge_limit_rows(cx, b, rows)
+                _judge_repeated_calls(cx, b, "generate")
             else:
                 problems.append(why)
     if not decided:
@@ -1055,6 +1727,38 @@ def rule_r4(cx: Ctx, scan_depends_on_limit: bool = False) -> None:
     else:
         for p in problems:
             res.observe(f"C09.R4: {p}")
+
+
+def _judge_repeated_calls(cx: Ctx, entry: FuncInfo, style: str) -> None:
+    """The limit reaches the graph on *every* call: an architecture built for one limit is not served to a later call that asks for
+    another (a cache of graphs / architectures whose key lacks the limit)."""
+    res, repo = cx.res, cx.repo
+    bad = repeated_calls(cx, entry, style)
+    key = f"{entry.relpath}::{entry.qualname}::a later call with another limit gets its own graph"
+    if not bad:
+        res.add("C09.R4", key, True, "two calls for the same paths with different limits, evaluated on shared module / class state: the second graph is constructed with its own limit", where(entry, entry.node), kind="decision-table")
+        return
+    first, second, depth, mp, out = bad[0]
+    # name the state that outlives the call (for the report; the evidence is the evaluation)
+    E = Effects(repo, cx.T)
+    kept: list[str] = []
+    site = None
+    for f in reachable_funcs(repo, [entry], byname=False):
+        if f in construction_functions(cx) or not f.module.name.startswith("pytestarch"):
+            continue
+        for w in E.writes(f):
+            if w.root_kind in ("classvar", "global") and len(kept) < 3:
+                kept.append(f"`{header(stmt_of(w.node))}` in {f.qualname} ({w.root_kind} {w.root}.{w.field})")
+                site = site or (f, w.node)
+    got = "no graph is constructed (the result of the first call is returned)" if out[0] == "no-construction" else f"the graph receives limit {out[1]!r}"
+    want = None if second is None else second + depth
+    res.add(
+        "C09.R4", key, False,
+        f"after a call with level_limit={first}, a call with level_limit={second} for the same paths (root /srv/work/proj, module {mp}): {got}, expected a graph with limit {want!r}"
+        + (f"; state that outlives the call: {'; '.join(kept)}" if kept else "")
+        + " - the architecture is then the quotient for another limit than the one asked for",
+        where(*site) if site else where(entry, entry.node), kind="decision-table",
+    )
 
 
 def _judge_limit_rows(cx: Ctx, entry: FuncInfo, rows: list[tuple]) -> None:
@@ -1105,6 +1809,37 @@ def run(repo: Repo) -> Result:
     cons = construction_functions(cx)
     flow = rule_r1_r3(cx, cons)
     rule_r2(cx, cons, flow)
+    tabulated = rule_r6(cx, getattr(cx, "import_records", []))
+    r6_passed = tabulated and not any(o.rule == "C09.R6" and not o.ok for o in res.obligations)
+    if getattr(cx, "limit_unused", None):
+        if r6_passed:
+            # no expression of the construction code was recognised as the truncation, but the evaluated constructor does flatten
+            res.observe(f"C09.R3: no truncation was recognised in the construction code ({cx.limit_unused}) - contradicted by the construction table (C09.R6), which finds the limited graphs flattened")
+        else:
+            res.add("C09.R3", f"{cx.g.module.relpath}::{cx.g.name}::the limit reaches a truncation", False, cx.limit_unused, where(cx.init, cx.init.node), kind="flow")
+    for k, p in enumerate(cx.r1_pending):
+        a = p["arg"]
+        obs = getattr(cx, "r6_seen", {}).get(k, {}) if tabulated and not any(o.rule == "C09.R6" and not o.ok for o in res.obligations) else {}
+        values = {lim: [x for v in vs for x in (Flattening._leaves(v) or [POISON])] for lim, vs in obs.items()}
+        contradicted = bool(values) and all(values.get(lim) for lim in (1, 2, 3)) and all(isinstance(x, str) and trunc(x, lim) == x for lim, xs in values.items() for x in xs)
+        if contradicted:
+            n_obs = sum(len(xs) for xs in values.values())
+            res.add(
+                "C09.R1", p["key"], True,
+                f"the static flow cannot follow `{norm(a, 40)}` to a truncation, but every value that reaches this {p['what']} when the constructor is evaluated on the model inputs (limits 1, 2, 3; {n_obs} values, deep names included) is a truncated name",
+                p["where"], kind="flow",
+            )
+        else:
+            res.add(
+                "C09.R1", p["key"], False,
+                f"`{norm(a, 40)}` reaches {p['what']} without having passed the level-limit truncation: with a level limit, nodes/edges below the limit enter the graph (or are looked up) un-truncated",
+                p["where"], kind="flow",
+            )
+    for pkey, detail, wh in cx.pending_unary:
+        if tabulated:
+            res.observe(f"C09.R2: {detail} - judged by the construction table (C09.R6)")
+        else:
+            res.undecide("C09.R2", pkey, detail, wh)
     from .c09_r5 import rule_r5
 
     scan_depends = rule_r5(cx)
